@@ -138,7 +138,7 @@ def run(ctx, progs):
                 if len(cs) == 1:
                     target = unref(cs[0].args()[1])
                     off = OKP(C("VolatileSlice::offset", P(1), P(2)))
-                    ok = match(C("Result::unwrap", C("VolatileSlice::subslice", off, K(0), C("Ord::min", C("VolatileSlice::len", off), P(4)))), target, {})
+                    ok = match(C("Result::unwrap", C("VolatileSlice::subslice", off, K(0), C("cmp::min", C("VolatileSlice::len", off), P(4)))), target, {})
                     src_ok = unref(cs[0].args()[0])[:2] == ('param', 3)
                     rts = b.return_terms()
                     ret_ok = any(deep_strip(t) == deep_strip(b.call_term(cs[0].t, cs[0].pos, 0)) or (deep_strip(t)[0] == 'var') for _p, t in rts)
